@@ -171,7 +171,10 @@ class LibMixin:
             for s2, b in self.fork(st, bound_ok, "getcallargs"):
                 if b:
                     from .models import PARAMS_OF
-                    d = self.new_dict(s2, PARAMS_OF(box(a[0])), self.fresh("camap", MapV))
+                    from .models import BOUND_MAP
+                    sq_, dom_, mp_ = self.pack_args(s2, list(pos[1:]), kw, star, starkw)
+                    # the binding is a function of the callable and of the arguments (Python's binding rules, not interpreted further)
+                    d = self.new_dict(s2, PARAMS_OF(box(a[0])), BOUND_MAP(box(a[0]), sq_, dom_, mp_))
                     k = z3.Const("k!ca", Val)
                     s2.assume(z3.ForAll([k], z3.Implies(z3.Select(self.dom_of(s2, d), k), Val.is_StrV(k)), patterns=[z3.Select(self.dom_of(s2, d), k)]))
                     out.append(Res(s2, d))
@@ -352,11 +355,10 @@ class LibMixin:
                     raise Unsupported("dict comprehension operands")
                 ks = keys.t if keys.k == "seq" else self.seq_of(s, keys)
                 dom, mp = self.dom_of(s, src), self.map_of(s, src)
-                kq = z3.Const("k!dc", Val)
-                inkeys = z3.Lambda([kq], z3.Contains(ks, z3.Unit(kq)))
+                inkeys = self.set_of_seq(s, ks)
                 allin = z3.IsSubset(inkeys, dom)
                 return self.may_raise(s, allin, "KeyError",
-                                      lambda s2: [Res(s2, self.new_dict(s2, inkeys, z3.Lambda([kq], z3.If(z3.Contains(ks, z3.Unit(kq)), z3.Select(mp, kq), NoneV))))])
+                                      lambda s2: [Res(s2, self.new_dict(s2, inkeys, self.ite_map(inkeys, mp, z3.K(Val, NoneV))))])
             return self.chain(st, [e.value.value, g.iter], k)
         raise Unsupported("dict comprehension shape")
 
